@@ -15,24 +15,25 @@ pub struct HavokAnimationContainer {
 }
 
 impl HavokAnimationContainer {
-    pub fn new(object: Arc<RefCell<HavokObject>>) -> Self {
+    /// `None` when the object (or one of its skeletons / bindings) does not have the expected members.
+    pub fn new(object: Arc<RefCell<HavokObject>>) -> Option<Self> {
         let root = object.borrow();
 
-        let raw_skeletons = root.get("skeletons").as_array();
+        let raw_skeletons = root.get("skeletons")?.as_array()?;
         let skeletons = raw_skeletons
             .iter()
-            .map(|x| HavokSkeleton::new(x.as_object()))
-            .collect::<Vec<_>>();
+            .map(|x| HavokSkeleton::new(x.as_object()?))
+            .collect::<Option<Vec<_>>>()?;
 
-        let raw_bindings = root.get("bindings").as_array();
+        let raw_bindings = root.get("bindings")?.as_array()?;
         let bindings = raw_bindings
             .iter()
-            .map(|x| HavokAnimationBinding::new(x.as_object()))
-            .collect::<Vec<_>>();
+            .map(|x| HavokAnimationBinding::new(x.as_object()?))
+            .collect::<Option<Vec<_>>>()?;
 
-        Self {
+        Some(Self {
             skeletons,
             bindings,
-        }
+        })
     }
 }
